@@ -1489,3 +1489,136 @@ func ruleL6e(c *Ctx, rels ...string) {
 		c.trivial("unbuffered channels fed by goroutines started in a loop", token.NoPos, "none in %v", rels)
 	}
 }
+
+// ---- OK2 the kind that was tested is the kind that is used ----------------------------------------------------------------------------------------------
+
+func ruleOK2(c *Ctx) {
+	c.Rule("OK2", "inside a branch taken because an object holds a certain kind of value, that value is the one used: in package triple the region guarded by `o.<kind> != nil` reads o.<kind> again (a sibling branch pasted with another field builds the result from the wrong component)", 3)
+	obj := c.mustNamed("triple", "Object")
+	if obj == nil {
+		return
+	}
+	n := 0
+	for _, fn := range c.srcFuncs("triple") {
+		fi := c.fi(fn)
+		allInstrs(fn, func(in ssa.Instruction) {
+			iff, ok := in.(*ssa.If)
+			if !ok {
+				return
+			}
+			bo, ok := iff.Cond.(*ssa.BinOp)
+			if !ok || bo.Op != token.NEQ || !isNilConst(bo.Y) {
+				return
+			}
+			ld, ok := bo.X.(*ssa.UnOp)
+			if !ok || ld.Op != token.MUL {
+				return
+			}
+			fa, ok := ld.X.(*ssa.FieldAddr)
+			if !ok || namedOf(fa.X.Type()) != obj {
+				return
+			}
+			succ := in.Block().Succs[0]
+			if len(fi.preds[succ.Index]) != 1 {
+				return // the branch is shared with other conditions
+			}
+			n++
+			used := false
+			name := fieldName(fa.X.Type(), fa.Field)
+			for _, b := range fn.Blocks {
+				if !fi.dominates(succ, b) {
+					continue
+				}
+				for _, i2 := range b.Instrs {
+					if fa2, ok := i2.(*ssa.FieldAddr); ok && fa2.Field == fa.Field && namedOf(fa2.X.Type()) == obj && c.term(fa2.X) == c.term(fa.X) {
+						used = true
+					}
+				}
+			}
+			// an accessor that only reports the kind (no value built in the branch) has nothing to use
+			builds := false
+			for _, b := range fn.Blocks {
+				if !fi.dominates(succ, b) {
+					continue
+				}
+				for _, i2 := range b.Instrs {
+					if cc := callCommon(i2); cc != nil && cc.StaticCallee() != nil {
+						builds = true
+					}
+				}
+			}
+			c.check(used || !builds, fmt.Sprintf("%s uses the %s it tested (line %d)", funcName(fn), name, c.Fset.Position(bo.Pos()).Line), bo.Pos(), "the guarded region reads the tested field", fmt.Sprintf("the branch taken when %s.%s != nil (test at %s) never reads that field: the value built there comes from another component", truncate(c.term(fa.X), 30), name, c.pos(bo.Pos())))
+		})
+	}
+	if n < 3 {
+		c.undecided("kind tests in package triple", token.NoPos, "only %d found", n)
+	}
+}
+
+// ---- S1y a graph is complete before it is published -----------------------------------------------------------------------------------------------------
+
+func ruleS1y(c *Ctx) {
+	c.Rule("S1y", "a graph becomes visible to other goroutines only when it is complete: in memoryStore.NewGraph every store into a field of the new graph value dominates the map update that registers it under the store's lock (an index map assigned after publication is nil, or racing, for a concurrent Graph()+AddTriples)", 1)
+	fn := c.mustFunc("storage/memory", "memoryStore.NewGraph")
+	if fn == nil {
+		return
+	}
+	fi := c.fi(fn)
+	n := 0
+	allInstrs(fn, func(in ssa.Instruction) {
+		mu, ok := in.(*ssa.MapUpdate)
+		if !ok {
+			return
+		}
+		val := stripConv(mu.Value)
+		al, ok := val.(*ssa.Alloc)
+		if !ok {
+			return
+		}
+		n++
+		late := ""
+		for _, r := range *al.Referrers() {
+			fa, ok := r.(*ssa.FieldAddr)
+			if !ok {
+				continue
+			}
+			for _, r2 := range *fa.Referrers() {
+				if st, ok := r2.(*ssa.Store); ok && st.Addr == ssa.Value(fa) && !fi.instrDominates(st, in) {
+					late = fieldName(fa.X.Type(), fa.Field) + " at " + c.pos(st.Pos())
+				}
+			}
+		}
+		c.check(late == "", "memoryStore.NewGraph publishes a complete graph", in.Pos(), "every field store precedes the registration", "field "+late+" of the new graph is assigned after (or not on every path before) the graph is registered at "+c.pos(in.Pos())+": another goroutine can obtain the graph with that field still unset")
+	})
+	if n == 0 {
+		c.undecided("registration of the new graph in memoryStore.NewGraph", fn.Pos(), "no map update of a freshly allocated value found")
+	}
+}
+
+// ---- PU1 the builder that was passed in is the builder that is used --------------------------------------------------------------------------------------
+
+func rulePU1(c *Ctx, rels ...string) {
+	c.Rule("PU1", "a parser uses the literal builder it was given: every parameter of type literal.Builder of a function with a body is used (a parser that substitutes the default builder ignores the caller's size bound)", 3)
+	n := 0
+	for _, fn := range c.srcFuncs(rels...) {
+		if fn.Parent() != nil {
+			continue
+		}
+		for _, p := range fn.Params {
+			if !isNamed(p.Type(), modPath+"/triple/literal", "Builder") || p.Name() == "_" {
+				continue
+			}
+			n++
+			refs := 0
+			for _, r := range *p.Referrers() {
+				if _, isDbg := r.(*ssa.DebugRef); !isDbg {
+					refs++
+				}
+			}
+			c.check(refs > 0, funcName(fn)+" uses its literal builder", fn.Pos(), "the parameter is used", funcName(fn)+" never uses its literal.Builder parameter "+p.Name()+": literals are built by some other builder, so the caller's limits are not applied")
+		}
+	}
+	if n < 3 {
+		c.undecided("functions taking a literal.Builder", token.NoPos, "only %d found", n)
+	}
+}
